@@ -122,7 +122,8 @@ def case_ttl(rng, big):
     lo, hi, de = rng.choice([(30, 100, 60), (1, 86400, 3600), (60, 60, 60), (30, 21600, 21600), (100, 1000, 100)])
     ops = [cfg(min=lo, max=hi, default=de, cap=64)]
     addr = 0
-    vals = [lo - 1, lo, lo + 1, hi - 1, hi, hi + 1, 0, 1, de, 2**63 - 1, 2**63, 2**63 + 1, 2**64 - 1, 2**64, 86400, 86401]
+    vals = [lo - 1, lo, lo + 1, hi - 1, hi, hi + 1, 0, 1, de, 2**63 - 1, 2**63, 2**63 + 1, 2**64 - 1, 2**64, 86400, 86401,
+            2**32 + lo, 2**32 + hi, 2**33 + de, 2**31 + lo, 2**16 + lo, 2**32 - 1, 2**32]
     texts = [str(v).encode() for v in vals if v >= 0] + [b"", b"abc", b"-5", b"+60", b" 60", b"60 ", b"0060", b"6e1", b"0x40", b"60.0"]
     n = rng.randint(6, 10) if not big else rng.randint(15, 30)
     for i in range(n):
@@ -135,6 +136,53 @@ def case_ttl(rng, big):
         ops.append(req(addr, store_lines(rng, len(p), extra), p))
     ops.append(req(250, [b"COMMAND:LIST"]))
     return Case(ops=ops, tag="ttl")
+
+
+def case_width(rng, big):
+    """integer-width probes on the numeric headers: a value that is out of range as a 64-bit number but whose low
+    8 / 16 / 31 / 32 bits look fine (a narrowing conversion before the comparison would let it through)"""
+    lo, hi, de = rng.choice([(30, 21600, 21600), (30, 100, 60), (1, 86400, 3600), (60, 60, 60), (100, 1000, 100)])
+    cap = rng.choice([16, 64, 200])
+    ops = [cfg(min=lo, max=hi, default=de, cap=cap)]
+    addr = 0
+    mid = (lo + hi) // 2
+    ts = sorted({lo - 1, lo, lo + 1, mid, hi - 1, hi, hi + 1, de} - {-1})
+    probes = []
+    for t in ts:
+        for base in (2**32, 2 * 2**32, 3 * 2**32, 2**31, 3 * 2**31, 2**16, 2**8, 2**40, 2**63, (2**32 - 1) * 2**32, 2**64):
+            probes.append(base + t)
+    probes += [2**63 - 1, 2**63, 2**63 + 1, 2**64 - 1, 2**64, 2**64 + lo, 2**32 - 1, 2**32, 2**31 - 1, 2**31]
+    rng.shuffle(probes)
+    n = 36 if not big else 90
+    chosen = probes[:n]
+    # the witness of the seeded change C28-r2 and its neighbours are always present
+    for must in (2**32 + mid, 2**33 + mid, 2**32 + lo, 2**32 + hi):
+        if must not in chosen:
+            chosen.append(must)
+    for v in chosen:
+        addr = (addr % 240) + 1
+        text = str(v).encode()
+        deco = rng.random()
+        if deco < 0.08:
+            text = b"000" + text
+        elif deco < 0.12:
+            text = b"+" + text
+        elif deco < 0.16:
+            text = text + b" "
+        elif deco < 0.20:
+            text = b" " + text
+        p = rnd_payload(rng, rng.choice([1, 3, 9]))
+        ops.append(req(addr, store_lines(rng, len(p), [b"TTL:" + text]), p))
+    # PAYLOAD-LENGTH: declared length far above the cap whose low bits are a small in-cap number; the body has exactly
+    # that small number of bytes, so a daemon comparing a narrowed value would read it and store it
+    for base in (2**32, 2**33, 2**31, 2**16, 2**8, 2**63, 2**64 - 2**32):
+        if base <= cap:
+            continue
+        small = rng.choice([1, 2, 4, 8])
+        addr = (addr % 240) + 1
+        ops.append(req(addr, store_lines(rng, base + small), rnd_payload(rng, small)))
+    ops.append(req(250, [b"COMMAND:LIST"]))
+    return Case(ops=ops, tag="width")
 
 
 PATHS = [None, b"a.txt", b"/abs/dir/file.bin", b"dir/", b".", b"..", b"x/..", b"weird\\name", b"sp ace.txt", b"n" * 300, b"d/" + b"m" * 256,
@@ -269,8 +317,10 @@ def generate(ctx, budget):
     rng = ctx.rng
     for i in range(budget):
         big = ctx.tier == "thorough" and i % 4 == 0
-        k = i % 8
-        if k == 0:
+        k = i % 9
+        if k == 8:
+            out.append(case_width(rng, big))
+        elif k == 0:
             out.append(case_size(rng, big))
         elif k == 1:
             out.append(case_ttl(rng, big))
@@ -310,7 +360,7 @@ def spec() -> Spec:
         budget={"quick": 144, "thorough": 1600},
         search_budget={"quick": 500, "thorough": 6000},
         per_case_timeout=90.0,
-        rule="8 shapes in rotation: payload sizes around a lowered cap (cap-1, cap, cap+1, 0, 2^32..2^64, lying lengths, duplicate "
+        rule="9 shapes in rotation: integer-width probes (TTL and PAYLOAD-LENGTH values k*2^32+t, k*2^31+t, 2^16+t, 2^8+t, 2^40+t, 2^63+t with t at the window / cap edges, 2^63-1..2^64, with leading zeros / sign / blanks),  payload sizes around a lowered cap (cap-1, cap, cap+1, 0, 2^32..2^64, lying lengths, duplicate "
              "PAYLOAD-LENGTH; the body of an oversized STORE is withheld: TOO_LARGE must come without it), TTL texts at the window edges and at the int64 wrap, "
              "store PoW nonces (valid; valid for the raw path / another size / another payload / one bit short; missing; malformed; "
              "lock-out counter), STORE sequences from 1-3 source addresses with varying TOKEN headers and clock advances aimed at "
